@@ -384,6 +384,22 @@ pub async fn do_write_fragments(
     storage_version: LanceFileVersion,
     target_bases_info: Option<Vec<TargetBaseInfo>>,
 ) -> Result<Vec<Fragment>> {
+    // A limit of zero can never be met: `break_stream` would divide by zero, and
+    // `chunk_stream` with a chunk size of zero yields nothing (every row would be
+    // dropped without an error).
+    if params.max_rows_per_file == 0 {
+        return Err(Error::invalid_input(
+            "max_rows_per_file must be greater than zero",
+            location!(),
+        ));
+    }
+    if storage_version == LanceFileVersion::Legacy && params.max_rows_per_group == 0 {
+        return Err(Error::invalid_input(
+            "max_rows_per_group must be greater than zero",
+            location!(),
+        ));
+    }
+
     let adapter = SchemaAdapter::new(data.schema());
     let data = adapter.to_physical_stream(data);
 
